@@ -15,6 +15,7 @@
 #include <nop/base/array.h>
 #include <nop/base/enum.h>
 #include <nop/base/handle.h>
+#include <nop/types/file_handle.h>
 #include <nop/base/map.h>
 #include <nop/base/optional.h>
 #include <nop/base/pair.h>
